@@ -109,7 +109,7 @@ def sym_int_var(name, lo, hi):
 
 class SFloat(Sym):
     """a binary64 value known as exact-value + error bound"""
-    __slots__ = ('aff', '_t', 'err', 'mag', 'note', 'nearest')
+    __slots__ = ('aff', '_t', 'err', 'mag', 'note', 'nearest', 'zsafe')
     _pytype = float
 
     @property
@@ -130,6 +130,7 @@ class SFloat(Sym):
         self.mag = Fraction(mag)
         self.note = note
         self.nearest = False       # True: the computed value is the double nearest to the exact value (integers are then exact)
+        self.zsafe = False         # True: computed >= 0, and computed == 0 exactly when the exact value is 0
 
     # -- construction ------------------------------------------------------------
     @classmethod
@@ -140,13 +141,17 @@ class SFloat(Sym):
             s = cls(aff, None, 0)
             if s.mag >= 2 ** 53:
                 s.err = s.mag * U
+            lo, hi = aff.bounds()
+            s.zsafe = lo is not None and lo >= 0
             return s
         return cls.const(n)
 
     @classmethod
     def const(cls, c):
         r, e = lift_const(c)
-        return cls(Aff(r), None, e, abs(r))
+        x = cls(Aff(r), None, e, abs(r))
+        x.zsafe = r >= 0 and (r != 0 or e == 0)
+        return x
 
     def exact(self):
         return self.err == 0
@@ -185,6 +190,7 @@ class SFloat(Sym):
             if lo is not None:
                 r.mag = max(abs(lo), abs(hi))
         r.err = a.err + b.err + U * (r.mag + a.err + b.err)
+        r.zsafe = sign > 0 and a.zsafe and b.zsafe      # a sum of non-negative values is 0 iff all of them are
         return r
 
     def __add__(self, o): return self._addsub(o, 1)
@@ -229,6 +235,7 @@ class SFloat(Sym):
                 r.mag = max(abs(lo), abs(hi))
         r.err = a.mag * b.err + b.mag * a.err + a.err * b.err
         r.err += U * (r.mag + r.err)
+        r.zsafe = a.zsafe and b.zsafe and r.mag < 2 ** 500
         return r
 
     def __rmul__(self, o):
@@ -264,6 +271,18 @@ class SFloat(Sym):
         lo = hi = None
         if o.aff is not None:
             lo, hi = o.aff.bounds()
+        if (lo is not None and lo >= 0 and o.aff is not None and o.aff.all_int_vars() and lo <= o.err
+                and not c.feasible(o.t == 0)):
+            # a non-negative value on a lattice of step 1/D that the path condition makes non-zero is at least one step
+            D, off = o.aff.lattice()
+            step = (off / D) if off > 0 else Fraction(1, D)
+            if step > 2 * o.err:
+                lo = step
+                # a lattice step is a poor lower bound when the value is in fact large: ask the solver (path-sensitive)
+                if self.mag * o.err / (step * step) > Fraction(1, 10 ** 9):
+                    lo2, _ = _opt_bounds(o.t, ('min',), 600)
+                    if lo2 is not None and lo2 > lo:
+                        lo = lo2
         if lo is None or (lo <= o.err and hi >= -o.err):
             lo, hi = _opt_bounds(o.t)             # path-sensitive bounds from the solver (linear objective)
         if lo is None or (lo <= o.err and hi >= -o.err):
@@ -367,9 +386,12 @@ class SFloat(Sym):
         o = self._co(o)
         if o is None:
             return NotImplemented
-        d = self - o             # error of the subtraction itself is irrelevant for comparison: use input errors
         err = self.err + o.err
         c = ctx()
+        if self.zsafe and o.aff is not None and o.aff.is_const() and o.aff.c0 == 0 and o.err == 0:
+            # sign and zero-ness of a zero-safe value are those of its exact value
+            et = self.t
+            return mkbool({'<': z3.BoolVal(False), '<=': et == 0, '>': et != 0, '>=': z3.BoolVal(True), '==': et == 0, '!=': et != 0}[op])
         dt = (self.aff.add(o.aff, -1).term() if (self.aff is not None and o.aff is not None) else self.t - o.t)
         if self.aff is not None and o.aff is not None:
             lo, hi = self.aff.add(o.aff, -1).bounds()
@@ -521,13 +543,13 @@ class SFloat(Sym):
         return o
 
 
-def _opt_bounds(t):
+def _opt_bounds(t, senses=('min', 'max'), timeout=3000):
     """(min, max) of a real term under the current path condition, as Fractions widened outward; (None, None) if unknown"""
     c = ctx()
     out = []
-    for sense in ('min', 'max'):
+    for sense in senses:
         o = z3.Optimize()
-        o.set('timeout', 3000)
+        o.set('timeout', timeout)
         o.add(*c.pc)
         h = o.minimize(t) if sense == 'min' else o.maximize(t)
         chk = o.check()
@@ -550,6 +572,8 @@ def _opt_bounds(t):
         else:
             return None, None
         out.append(f)
+    if senses == ('min',):
+        return out[0] - abs(out[0]) * Fraction(1, 10 ** 12), None
     lo, hi = out
     w = (abs(lo) + abs(hi)) * Fraction(1, 10 ** 12)
     return lo - w, hi + w
@@ -695,6 +719,8 @@ def float_of_decimal_text(s, allow_exponent=False):
     r = SFloat(aff, None, 0)
     if not (k == 0 and hi < 2 ** 53):
         r.err = r.mag * U
+    r.nearest = True
+    r.zsafe = sign > 0
     return r
 
 
